@@ -127,8 +127,9 @@ func (w *watcher) Start(c context.Context, r *etcdserverpb.WatchCreateRequest) {
 		start:  string(r.Key),
 		end:    string(r.RangeEnd),
 	}
-	if len(w.watches) > 1 {
-		klog.InfoS("watcher reuse", "id", w.id, "size", len(w.watches))
+	count := len(w.watches)
+	if count > 1 {
+		klog.InfoS("watcher reuse", "id", w.id, "size", count)
 	}
 	w.Unlock()
 	w.metricCli.EmitGauge("watch.watch_id", id)
@@ -153,7 +154,8 @@ func (w *watcher) Start(c context.Context, r *etcdserverpb.WatchCreateRequest) {
 	} else {
 		w.metricCli.EmitCounter("watch.watch", 1)
 		go w.Watch(ctx, id, r)
-		klog.InfoS("watch start", "id", id, "count", len(w.watches), "key", key, "revision", r.StartRevision)
+		// (count was taken under the lock: the watch's own goroutine may already be cancelling it)
+		klog.InfoS("watch start", "id", id, "count", count, "key", key, "revision", r.StartRevision)
 	}
 }
 
